@@ -53,6 +53,8 @@ def func_cases(tier, prefix='c01', ops=('PUT', 'REMOVE', 'GET', 'MIN', 'MAX', 'S
                 if sh['n'] <= (4 if q else 5):
                     variants += [({'VF_OPKSZ': 2}, '.k2'), ({'VF_KSZ': 2, 'VF_OPKSZ': 2}, '.kk2'), ({'VF_KSZ': 2, 'VF_OPKSZ': 1}, '.k21'),
                                  ({'VF_API': 1, 'VF_KSZ': 2, 'VF_OPKSZ': 2}, '.str')]
+                if op in ('REMOVE', 'GET'):
+                    variants += [({'VF_PDSZ': 1, 'VF_PDSZ_ODD': 3}, '.mix')]
                 if op == 'PUT' and sh['n'] <= (4 if q else 5):
                     variants += [({'VF_DSZ': 2}, '.d2'), ({'VF_DSZ': 3, 'VF_PDSZ': 1}, '.d3')]
             elif op in ('MIN', 'MAX'):
@@ -90,7 +92,7 @@ def cases(tier, mode='func'):
         return out
     if mode == 'allocfail':
         for fd, fs in (FAILS if not q else [f for f in FAILS if f[1] in ('f0', 'f1', 'f2', 'ff0')]):
-            d = {'VF_ALLOCFAIL': None}
+            d = {'VF_ALLOCFAIL': None, 'VF_SHAPECHK': None}
             d.update(fd)
             out += func_cases(tier, prefix='c15.%s' % fs, extra=d, nmax=3 if q else 4, ops=('PUT', 'REMOVE', 'GET', 'MIN', 'MAX', 'CLEAR'))
             out += [tree_case('c15.ts.%s' % fs, shapes(0)[0], 'CTOR', dict(d, VF_TS=None))]
@@ -114,6 +116,9 @@ def shape_cases(tier):
                     e['VF_LIBCHK'] = None
                 out.append(tree_case('c02', sh, op, e, sfx=sfx))
         out.append(tree_case('c02', sh, 'GET', {'VF_CMP': 1, 'VF_SHAPECHK': None}, sfx='.ucmp'))
+        if sh['n'] <= (4 if q else 6):
+            for fd, fs in FAILS[:3]:
+                out.append(tree_case('c02', sh, 'PUT', dict(fd, VF_ALLOCFAIL=None, VF_SHAPECHK=None, VF_SHAPE_OWNER_C02=None), sfx='.' + fs))
     for sh in shapes(nstep + 1):
         out.append(tree_case('c02', sh, 'SELFCHECK', {'VF_VALID': 1}, sfx='.valid'))
     for n in range(0, (3 if q else 4) + 1):
